@@ -28,7 +28,9 @@ func shortType(t types.Type) string {
 	})
 }
 
-func newFuncCanon(info *types.Info, fd *ast.FuncDecl) *fcanon { return newFuncCanonMode(info, fd, false) }
+func newFuncCanon(info *types.Info, fd *ast.FuncDecl) *fcanon {
+	return newFuncCanonMode(info, fd, false)
+}
 
 // newFuncCanonG additionally prints calls of the package's trivial getters as the field they return.
 func newFuncCanonG(p *packages.Package, fd *ast.FuncDecl) *fcanon {
@@ -37,7 +39,9 @@ func newFuncCanonG(p *packages.Package, fd *ast.FuncDecl) *fcanon {
 
 // newFuncCanonAbs prints receiver, parameters and every other variable without a single definition
 // by type (var<T>), so the result does not depend on which function the expression sits in.
-func newFuncCanonAbs(info *types.Info, fd *ast.FuncDecl) *fcanon { return newFuncCanonMode(info, fd, true) }
+func newFuncCanonAbs(info *types.Info, fd *ast.FuncDecl) *fcanon {
+	return newFuncCanonMode(info, fd, true)
+}
 
 func newFuncCanonMode(info *types.Info, fd *ast.FuncDecl, abs bool) *fcanon {
 	return newFuncCanonOpt(info, fd, abs, nil)
